@@ -4,48 +4,36 @@ From GVL Require Import NList.
 From GV Require Import Res Str StrProofs KeyVal KeyValProofs HdrTransport HdrAuthProofs HdrSessionProofs Float FloatProofs HdrRange.
 Open Scope N_scope.
 
-Definition is_unit (k : list N) : bool := list_eqb k K_smpte || list_eqb k K_npt || list_eqb k K_clock.
-Definition rcompat (a b : list N * list N) : bool := negb (is_unit (fst a) && is_unit (fst b)).
-Definition units_no_conflict (m : list (list N * list N)) : bool := forallb (fun a => forallb (fun b => list_eqb (fst a) (fst b) || rcompat a b) m) m.
-
-Lemma gstep_commute a b : fst a <> fst b -> rcompat a b = true -> commute gstep a b.
+Lemma gstep_commute a b : fst a <> fst b -> commute gstep a b.
 Proof.
-  intros Hne Hc [val tm]. destruct a as [ka va], b as [kb vb]. cbn [fst] in Hne. unfold rcompat, is_unit in Hc. cbn [fst] in Hc.
-  unfold gstep, obind.
+  intros Hne [val tm]. destruct a as [ka va], b as [kb vb]. cbn [fst] in Hne.
+  unfold gstep, obind, unit_step.
   destruct (list_eqb ka K_smpte) eqn:A1; [|destruct (list_eqb ka K_npt) eqn:A2; [|destruct (list_eqb ka K_clock) eqn:A3; [|destruct (list_eqb ka K_time) eqn:A4]]];
   (destruct (list_eqb kb K_smpte) eqn:B1; [|destruct (list_eqb kb K_npt) eqn:B2; [|destruct (list_eqb kb K_clock) eqn:B3; [|destruct (list_eqb kb K_time) eqn:B4]]]);
-  try same_key_contra; try discriminate Hc;
+  try same_key_contra;
+  destruct val as [v0|];
   repeat match goal with
   | |- context [start_end ?f ?v] => destruct (start_end f v)
   | |- context [utc_unmarshal ?v] => destruct (utc_unmarshal v)
   end; cbn [option_map]; rewrite ?A1, ?A2, ?A3, ?A4, ?B1, ?B2, ?B3, ?B4; cbn [option_map]; reflexivity.
 Qed.
 
-Definition range_no_conflict (s : list N) : bool :=
-  match kv_parse s SEMI with Some m => units_no_conflict m | None => true end.
-
-Theorem range_deterministic_partial s o1 o2 :
-  is_perm o1 -> is_perm o2 -> range_no_conflict s = true ->
-  range_unmarshal_with o1 s = range_unmarshal_with o2 s.
+(* F7 repaired (/repo bf6ff68): the result never depends on the iteration order *)
+Theorem range_deterministic s o1 o2 :
+  is_perm o1 -> is_perm o2 -> range_unmarshal_with o1 s = range_unmarshal_with o2 s.
 Proof.
-  intros H1 H2 Hnc. unfold range_unmarshal_with, range_no_conflict in *.
+  intros H1 H2. unfold range_unmarshal_with.
   destruct (kv_parse s SEMI) as [m|] eqn:E; [|reflexivity]. unfold gfold.
   rewrite (ofold_order_indep gstep m o1 o2 H1 H2 (kv_parse_keys _ _ _ E)); [reflexivity|].
-  intros a b Ha Hb Hne. apply gstep_commute; [exact Hne|].
-  unfold units_no_conflict in Hnc. rewrite forallb_forall in Hnc. specialize (Hnc a Ha).
-  rewrite forallb_forall in Hnc. specialize (Hnc b Hb). apply orb_true_iff in Hnc as [Hk|Hk]; [|exact Hk].
-  apply list_eqb_spec in Hk. contradiction.
+  intros a b _ _. apply gstep_commute.
 Qed.
 
-(* F7: "npt=1-2;clock=19960213T143205Z-" *)
+(* regression (old F7 witness "npt=1-2;clock=19960213T143205Z-"): now an error in both orders *)
 Definition f7_range : list N :=
   [110;112;116;61;49;45;50;59;99;108;111;99;107;61;49;57;57;54;48;50;49;51;84;49;52;51;50;48;53;90;45].
-Theorem range_deterministic_refuted :
-  exists s o1 o2, is_perm o1 /\ is_perm o2 /\ range_unmarshal_with o1 s <> range_unmarshal_with o2 s.
-Proof.
-  exists f7_range, id_order, (@rev _). split; [apply id_is_perm|]. split; [apply rev_is_perm|].
-  vm_compute. discriminate.
-Qed.
+Example f7_range_regression :
+  range_unmarshal_with id_order f7_range = Err /\ range_unmarshal_with (@rev _) f7_range = Err.
+Proof. split; vm_compute; reflexivity. Qed.
 
 Theorem range_total o s : range_unmarshal_with o s <> Panic.
 Proof.
@@ -53,12 +41,10 @@ Proof.
   destruct (gfold _ _) as [[[v|] tm]|]; discriminate.
 Qed.
 
-(* F8: 1.001 s marshals to "npt=1.001-" and comes back as 1.000999999 s *)
+(* regression (F8, fixed by /repo ffeb757): 1.001 s marshals to "npt=1.001-" and comes back as 1.001 s *)
 Definition f8_range : range := mkRange (RNpt 1001000000%Z None) None.
-Theorem npt_roundtrip_refuted :
-  exists h, range_unmarshal_with id_order (range_marshal h) = Ok (mkRange (RNpt 1000999999%Z None) None)
-            /\ r_value h = RNpt 1001000000%Z None.
-Proof. exists f8_range. split; vm_compute; reflexivity. Qed.
+Example f8_regression : range_unmarshal_with id_order (range_marshal f8_range) = Ok f8_range.
+Proof. vm_compute. reflexivity. Qed.
 
 (* ================= round trips ================= *)
 (* characters of marshalled range values: digits, ':' '.' 'T' 'Z' *)
@@ -188,12 +174,12 @@ Definition value_codec_ok (v : range_value) : Prop :=
   | RUtc st en => codec_ok utc_unmarshal utc_marshal st /\ codec_ok_opt utc_unmarshal utc_marshal en
   end.
 
-Lemma gstep_smpte st v : gstep st (K_smpte, v) = option_map (fun p => (Some (RSmpte (fst p) (snd p)), snd st)) (start_end smpte_unmarshal v).
-Proof. destruct st. reflexivity. Qed.
-Lemma gstep_npt st v : gstep st (K_npt, v) = option_map (fun p => (Some (RNpt (fst p) (snd p)), snd st)) (start_end npt_unmarshal v).
-Proof. destruct st. reflexivity. Qed.
-Lemma gstep_clock st v : gstep st (K_clock, v) = option_map (fun p => (Some (RUtc (fst p) (snd p)), snd st)) (start_end utc_unmarshal v).
-Proof. destruct st. reflexivity. Qed.
+Lemma gstep_smpte tm v : gstep (None, tm) (K_smpte, v) = option_map (fun p => (Some (RSmpte (fst p) (snd p)), tm)) (start_end smpte_unmarshal v).
+Proof. reflexivity. Qed.
+Lemma gstep_npt tm v : gstep (None, tm) (K_npt, v) = option_map (fun p => (Some (RNpt (fst p) (snd p)), tm)) (start_end npt_unmarshal v).
+Proof. reflexivity. Qed.
+Lemma gstep_clock tm v : gstep (None, tm) (K_clock, v) = option_map (fun p => (Some (RUtc (fst p) (snd p)), tm)) (start_end utc_unmarshal v).
+Proof. reflexivity. Qed.
 Lemma gstep_time st v : gstep st (K_time, v) = option_map (fun t => (fst st, Some t)) (utc_unmarshal v).
 Proof. destruct st. reflexivity. Qed.
 
@@ -229,28 +215,13 @@ Proof.
   unfold item_kv; cbn [fst snd]; rewrite gstep_time, utc_roundtrip by exact Ht; reflexivity.
 Qed.
 
-Lemma range_marshal_no_conflict h : value_codec_ok (r_value h) -> range_no_conflict (range_marshal h) = true.
-Proof.
-  intros Hv. destruct h as [v tm]. cbn [r_value] in Hv.
-  unfold range_no_conflict, range_marshal, range_kvitems. cbn [r_value r_time].
-  rewrite (kv_parse_render_distinct SEMI []); [|reflexivity|reflexivity| |].
-  - destruct v, tm; reflexivity.
-  - rewrite forallb_app. apply andb_true_iff. split.
-    + cbn [forallb]. rewrite andb_true_r. destruct v as [st en|st en|st en]; cbn [range_value_item]; destruct Hv as [H1 H2];
-      (apply item_ok_plain; [reflexivity|exact (proj2 (start_end_codec _ _ st en H1 H2))]).
-    + destruct tm as [t|]; [|reflexivity]. cbn [opt_it forallb]. rewrite item_ok_plain; [reflexivity|reflexivity|apply utc_plain_ok].
-  - destruct v, tm; reflexivity.
-Qed.
-
 (* Range round trip, in every iteration order, for every value whose time values survive their own text codec
    (always the case for UTC - next theorem; for NPT this is exactly what F8 denies for some values) *)
 Theorem range_roundtrip_partial h o :
   is_perm o -> value_codec_ok (r_value h) -> opt_all wf_utc (r_time h) = true ->
   range_unmarshal_with o (range_marshal h) = Ok h.
 Proof.
-  intros Ho Hv Ht. rewrite (range_deterministic_partial _ o id_order Ho id_is_perm).
-  - now apply range_roundtrip_id.
-  - now apply range_marshal_no_conflict.
+  intros Ho Hv Ht. rewrite (range_deterministic _ o id_order Ho id_is_perm). now apply range_roundtrip_id.
 Qed.
 
 Theorem range_roundtrip_utc st en tm o :
@@ -262,12 +233,19 @@ Proof.
   cbn [opt_all] in H2. now apply utc_codec_ok.
 Qed.
 
-(* ---- NPT: what the unchanged code computes (F8) ---- *)
+(* ---- NPT (repaired code: rounding) ---- *)
 Lemma to_int64_range x : (- Z.of_N P63 <= to_int64 x < Z.of_N P63)%Z.
 Proof.
   unfold to_int64, MININT. change (Z.of_N P63) with 9223372036854775808%Z.
   destruct x as [| |neg m e]; try lia.
   set (v := if (0 <=? e)%Z then m * pow2 (Z.to_N e) else m / pow2 (Z.to_N (- e))).
+  change P63 with 9223372036854775808. destruct (N.leb_spec 9223372036854775808 v); [lia|]. destruct neg; lia.
+Qed.
+Lemma to_int64_round_range x : (- Z.of_N P63 <= to_int64_round x < Z.of_N P63)%Z.
+Proof.
+  unfold to_int64_round, MININT. change (Z.of_N P63) with 9223372036854775808%Z.
+  destruct x as [| |neg m e]; try lia.
+  match goal with |- context [if P63 <=? ?vv then _ else _] => set (v := vv) end.
   change P63 with 9223372036854775808. destruct (N.leb_spec 9223372036854775808 v); [lia|]. destruct neg; lia.
 Qed.
 Lemma wrap64_small z : (- Z.of_N P63 <= z < Z.of_N P63)%Z -> wrap64 z = z.
@@ -329,23 +307,23 @@ Proof.
 Qed.
 
 (* Under Go's contract ParseFloat (FormatFloat x) = x, an NPT time d >= 0 comes back as
-   int64 (float64 (d.Seconds()) * 1e9): it round-trips iff that product truncates to d *)
+   int64 (math.Round (float64 (d.Seconds()) * 1e9)) *)
 Theorem npt_time_partial d neg m e :
   (0 <= d)%Z -> seconds_of (Z.to_N d) = DFin neg m e -> neg = false ->
   parse_float (format_float (DFin neg m e)) = Some (DFin neg m e) ->
-  npt_unmarshal (npt_marshal d) = Some (to_int64 (dmul_int (DFin neg m e) E9)).
+  npt_unmarshal (npt_marshal d) = Some (to_int64_round (dmul_int (DFin neg m e) E9)).
 Proof.
   intros Hd Hs Hneg Hc. unfold npt_marshal. destruct (Z.ltb_spec d 0); [lia|]. rewrite Hs.
   destruct (format_float_chars neg m e Hneg) as [Hch Hne]. destruct (fchar_rstr _ Hch) as [_ Hcol].
   unfold npt_unmarshal. rewrite split_on_clean by exact Hcol. rewrite Hc.
   f_equal. cbn [N.mul N.add N.modulo]. change (wrap64 (s64z (Z.of_N (0 mod P64)) * Z.of_N E9)) with 0%Z.
-  rewrite Z.add_0_r. apply wrap64_small, to_int64_range.
+  rewrite Z.add_0_r. apply wrap64_small, to_int64_round_range.
 Qed.
 
 Theorem npt_codec_partial d neg m e :
   (0 <= d)%Z -> seconds_of (Z.to_N d) = DFin neg m e -> neg = false ->
   parse_float (format_float (DFin neg m e)) = Some (DFin neg m e) ->
-  to_int64 (dmul_int (DFin neg m e) E9) = d ->
+  to_int64_round (dmul_int (DFin neg m e) E9) = d ->
   codec_ok npt_unmarshal npt_marshal d.
 Proof.
   intros Hd Hs Hneg Hc Hr. split; [rewrite (npt_time_partial d neg m e) by assumption; now rewrite Hr|].
